@@ -253,6 +253,24 @@ ADDED_B10 = {
     "C13": "Added after the tenth batch: C13.10 hash() / hash256() and what they reach write nothing on `this` (their value depends on the hash context).",
     "C15": "Added after the tenth batch: C15.11 every placeholder arm of the template printer yields `${..}` (known finding: the union arm prints `(..)`, pinned by an existing test); C15.12 describe() and what it reaches write nothing on `this`.",
 }
+ADDED_B11 = {
+    "C01": "Added after the eleventh batch: C01.19 (= C08.3) no hoist-key converter reads a member through an optionality-erasing accessor.",
+    "C02": "Added after the eleventh batch: C02.20 the optional-field wrapper prints the null branch on every path (the object schema recognises optional properties by it).",
+    "C03": "Added after the eleventh batch: C03.15 a parseAfterValidation that throws on non-object member results is backed by a validate() that rejects non-objects.",
+    "C04": "Added after the eleventh batch: C04.8 in the counted loops of the subtyping engine a vector indexed by the counter is guarded or tied to the bound (length at start, padded wherever the bound is raised).",
+    "C05": "Added after the eleventh batch: C05.11 an accumulated list prefix is padded with its own rest element (found and guards fix 258f690); mixed-family or-patterns over atoms touch no family table.",
+    "C07": "Added after the eleventh batch: C07.6 also rejects arms that bind the table index of two atom families to one name.",
+    "C08": "Added after the eleventh batch: C08.3 converters keep the optionality of members.",
+    "C09": "Added after the eleventh batch: C09.14 in type position the tables of local type declarations are asked before the import table.",
+    "C13": "Added after the eleventh batch: C13.3 also covers optional parts written through optional chaining, short-circuit operators and one-sided conditionals.",
+    "C14": "Added after the eleventh batch: C14.6 the path handed to the watcher is the very path the compiler asked to read.",
+    "C15": "Added after the eleventh batch: C15.13 a chain of members joined by | or & is parenthesised where it is built.",
+}
+for _k, _v in ADDED_B11.items():
+    ADDED_B10[_k] = (ADDED_B10.get(_k, "") + " " + _v).strip()
+for _k in ADDED_B10:
+    if _k not in CLAIMED:
+        raise SystemExit("unknown property " + _k)
 for _k, _v in ADDED_B10.items():
     CLAIMED[_k]["text"] = CLAIMED[_k]["text"] + " " + _v
 
